@@ -9,6 +9,7 @@ import warnings
 
 import numpy as np
 
+from simkit import isolate
 from simkit import runner as R
 from simkit import stream as S
 from .weaver_sim import RngSeam, brief
@@ -273,6 +274,7 @@ def run_single(params, choices, keep_log=False):
 
 
 def _run(params, st, keep_log=False):
+    isolate.reset_library_state()
     if params["gen"] == "blackbox":
         return run_blackbox_case(st, keep_log)
     return run_seam_case(st, keep_log, params_long=params["gen"] == "seam-long")
